@@ -373,7 +373,9 @@ class Project:
         The name of the path (minus its extension) should be a valid SPDX
         License Identifier.
         """
-        if not path.suffix:
+        # 'OLDAP-2.0.1' is an identifier of its own, not 'OLDAP-2.0' with the
+        # file extension '.1'.
+        if not path.suffix or path.name in self.license_map:
             raise SpdxIdentifierNotFoundError(f"{path} has no file extension")
         if path.stem in self.license_map:
             return path.stem
